@@ -369,6 +369,28 @@ def build(tier="quick", seed=0):
         name = f"C04.short_write[write call {call} (of 2 per frame, after the header) stores {keep} byte(s) and says so, the program writes on]"
         pack.add(Obligation(name, lambda tier, name=name, call=call, keep=keep: prove_paths(name, th_short_mid(call, keep), judge_short_mid_for(call)), replay=lambda w, call=call, keep=keep: {"call": "c04_short_mid", "args": {"call": call, "keep": keep}}, functions=FU, mode="concrete history of four records, short write at a chosen call"))
 
+    def th_complete_then_damage(k):
+        # k complete record frames followed by a damaged frame on which the decoder RAISES (not the end-of-stream case): the k records come out before the error does
+        def th():
+            import struct as _struct
+
+            D, Do = two_descs()
+            segs = []
+            for i in range(k):
+                segs += frame_of(it, pk, it.call(D, [], {"n": SInt(x + i), "s": "v"}))
+            pre, blob = frame_of(it, pk, it.call(D, [], {"n": 5, "s": "v"}))
+            body = blob.concrete + b"\x05"
+            segs += [_struct.pack(">I", len(body)), body]
+            fp, rd = reader_at_loop_head(it, st, segs, registry(D, Do))
+            out, end = drain(it, it.call(it.getattr_(rd, "__iter__"), [], {}))
+            return len(out), end if isinstance(end, str) else end[:2]
+        return th
+
+    for k in (1, 3):
+        name = f"C04.iter[{k} complete record frame(s), then a frame the decoder raises on: the complete ones are yielded first]"
+        pack.add(Obligation(name, lambda tier, name=name, k=k: prove_paths(name, th_complete_then_damage(k), lambda p, k=k: (p.value[0] == k and p.value[1] != "stop", f"yielded {p.value[0]} of the {k} complete record(s), ended {p.value[1]}"), lambda m_, p: {}, allow_raise=("UnicodeEncodeError", "error")),
+                            replay=lambda w, k=k: {"call": "c04_complete_then_damage", "args": {"k": k}}, functions=FU, mode="whole loop"))
+
     def th_symtail():
         D, Do = two_descs()
         t = z3.Int("t")
